@@ -1,9 +1,10 @@
 import DepsDev.Proofs.C03L3Incl
 
 /-!
-# C03 layer L3 for npm, operator `gt`: interval membership of a prerelease candidate
+# C03 layer L3 for npm, operator `gt`: interval membership of a prerelease candidate (operands without tag)
 
-See `C03L3Incl` for the statement (`L1PNpm`) and the proof script.
+See `C03L3Incl` for the statements and the proof script; `C03L3InclGtP` has the tagged operands
+and the assembled `L1PNpm .gt`.
 -/
 namespace DepsDev.Proofs.C03
 
@@ -13,12 +14,6 @@ set_option linter.unusedSimpArgs false
 set_option linter.unusedVariables false
 
 theorem l1p_full_gt : L1PFull .gt := by l1p_full
-theorem l1p_pre_lt_gt : L1PPreO .gt .lt := by l1p_pre
-theorem l1p_pre_eq_gt : L1PPreO .gt .eq := by l1p_pre
-theorem l1p_pre_gt_gt : L1PPreO .gt .gt := by l1p_pre
 theorem l1p_part_gt : L1PPart .gt := by l1p_part
-
-theorem l1p_npm_gt : L1PNpm .gt :=
-  l1p_assemble _ l1p_full_gt (l1p_pre_assemble _ l1p_pre_lt_gt l1p_pre_eq_gt l1p_pre_gt_gt) l1p_part_gt
 
 end DepsDev.Proofs.C03
